@@ -133,7 +133,14 @@ func analyseBox(c *Ctx, sr, rd *types.Func, wantEE bool) *boxVerdict {
 		if len(sw.T.Items) == 0 || sw.T.Items[0].Kind != "hdr" {
 			out.problems = append(out.problems, "SE|EncodeSW does not start with the box header")
 		} else if tv, ok := sw.T.Items[0].V.(*TupleV); ok {
-			if hs, ok := tv.Vs[0].(*Expr); !ok || hs.String() != size.String() {
+			hs, ok := tv.Vs[0].(*Expr)
+			want := size
+			if hw, okw := sw.T.Items[0].W.ConstI(); okw && hw == 64 && ok {
+				// 8-byte header: the size field holds the low 32 bits (larger sizes are rejected by the header writer)
+				want = mkConv(size, typInfo{64, false}, typInfo{32, false})
+				hs = mkConv(hs, typInfo{64, false}, typInfo{32, false})
+			}
+			if !ok || hs.String() != want.String() {
 				out.problems = append(out.problems, fmt.Sprintf("SE|header size field %s is not Size() = %s of the box being encoded", showValShallow(tv.Vs[0]), size))
 			}
 		}
